@@ -134,6 +134,42 @@ def _val(e, atoms, env):
     txt = ast.unparse(e)
     if txt in atoms:
         return atoms[txt]
+    if isinstance(e, (ast.ListComp, ast.GeneratorExp)) and len(e.generators) == 1 and \
+            isinstance(e.generators[0].target, ast.Name):
+        g = e.generators[0]
+        src = _val(g.iter, atoms, env) if not isinstance(g.iter, ast.List) else _val(
+            ast.Tuple(elts=g.iter.elts, ctx=ast.Load()), atoms, env)
+        if not isinstance(src, tuple):
+            return UNKNOWN
+        out = []
+        for item in src:
+            env2 = dict(env)
+            env2[g.target.id] = item
+            keep = True
+            for c in g.ifs:
+                t = eval_test(c, atoms, env2)
+                if t is None:
+                    return UNKNOWN
+                keep = keep and t
+            if keep:
+                v = _val(e.elt, atoms, env2)
+                if v is UNKNOWN:
+                    return UNKNOWN
+                out.append(v)
+        return tuple(out)
+    if isinstance(e, ast.Call) and isinstance(e.func, ast.Name) and not e.keywords and \
+            e.func.id in ('max', 'min', 'len', 'any', 'all', 'sum', 'tuple', 'list', 'sorted'):
+        args = [_val(a, atoms, env) if not isinstance(a, ast.List) else _val(
+            ast.Tuple(elts=a.elts, ctx=ast.Load()), atoms, env) for a in e.args]
+        if any(a is UNKNOWN for a in args):
+            return UNKNOWN
+        try:
+            r = {'max': max, 'min': min, 'len': len, 'any': any, 'all': all, 'sum': sum,
+                 'tuple': tuple, 'list': tuple, 'sorted': lambda x: tuple(sorted(x))}[e.func.id](
+                     *args)
+        except (TypeError, ValueError):
+            return UNKNOWN
+        return r
     if isinstance(e, ast.IfExp):
         t = eval_test(e.test, atoms, env)
         if t is None:
